@@ -50,3 +50,27 @@ Proof. repeat split; vm_compute; reflexivity. Qed.
 
 Definition unsealed_traits : list (string * nat * string) :=
   map (fun t => (t_file t, t_line t, t_name t)) (filter (fun t => negb (trait_sealed (t_name t))) trait_table).
+
+(** ** accessors whose result can outlive the borrow of [self]: `pub fn (&self ..) -> ..&'l T..` where no parameter carries ['l].
+    Sound only when ['l] is the lifetime of the data the value itself borrows ([as_borrowed] family: the slice really lives for
+    ['borrow]); anywhere else (e.g. an iterator handing out [&'a [T]] of the elements it is about to move) it is an escape. *)
+Definition ref_ok (r : api_ref) : bool :=
+  r_unsafe r
+  || (String.eqb (r_lifetime r) "borrow"
+      && (String.eqb (r_name r) "as_borrowed" || (String.eqb (r_name r) "as_slice" && String.eqb (r_file r) "src/bytes/raw/borrowed.rs"))).
+
+Theorem C17_ref_accessors_table : forallb ref_ok ref_table = true.
+Proof. vm_compute. reflexivity. Qed.
+
+Theorem C17_ref_accessors : forall r, In r ref_table -> r_unsafe r = false -> r_lifetime r = "borrow" /\ (r_name r = "as_borrowed" \/ r_name r = "as_slice").
+Proof.
+  intros r Hin Hu. pose proof (proj1 (forallb_forall ref_ok ref_table) C17_ref_accessors_table r Hin) as H.
+  unfold ref_ok in H. rewrite Hu in H. cbn [orb] in H.
+  apply andb_true_iff in H as [Hl Hn]. split; [now apply String.eqb_eq|].
+  apply orb_true_iff in Hn as [Hn|Hn]; [left; now apply String.eqb_eq|].
+  apply andb_true_iff in Hn as [Hn _]. right; now apply String.eqb_eq.
+Qed.
+Print Assumptions C17_ref_accessors.
+
+Definition unaudited_ref_accessors : list (string * nat * string) :=
+  map (fun r => (r_file r, r_line r, r_name r)) (filter (fun r => negb (ref_ok r)) ref_table).
